@@ -49,7 +49,7 @@ BUDGET_S = {"quick": 240.0, "thorough": 1500.0}
 BATCH_SIZES = (1, 2, 7)
 MAPS = ("exp", "affine", "sinh", "sq1")
 BASES = ("Continuous1D", "Continuous2D", "Image2D_C", "Image2D_F", "Image2D_V", "Discrete", "KLExpansion", "StepExpansion")
-GRID_KINDS = ("arange", "linspace", "unit", "faroffset", "jitter", "integer")
+GRID_KINDS = ("arange", "linspace", "unit", "faroffset", "jitter", "integer", "tiny", "huge")
 
 # ----------------------------------------------------------------------------- case generation
 
@@ -100,6 +100,9 @@ def cases(tier, seed):
                     out.append({"kind": "maps", "family": "MappedGeometry", "base": base, "map": mp, "deg": deg,
                                 "n": rnd.randint(2, 24), "shape": _shape2(rnd, 7, deg if "axis" in deg else "none"),
                                 "nested": rnd.random() < 0.15, "r": r})
+            for mp in COUPLED_MAPS:
+                out.append({"kind": "maps", "family": "MappedGeometry", "base": base, "map": mp, "deg": "none",
+                            "n": rnd.randint(2, 24), "shape": _shape2(rnd, 7, "none"), "nested": rnd.random() < 0.25, "r": r})
             out.append({"kind": "maps", "family": "MappedGeometry", "base": base, "map": "noinv", "deg": "none",
                         "n": rnd.randint(2, 24), "shape": _shape2(rnd, 7, "none"), "nested": False, "r": r})
         for modes in ("one", "partial", "full", "over", "none"):
@@ -114,7 +117,7 @@ def cases(tier, seed):
     nstep_max = 40 if quick else 60
     for n in range(2, nstep_max + 1):
         for gk in GRID_KINDS:
-            if quick and gk in ("faroffset", "jitter") and n % 3 != 0:
+            if quick and gk in ("faroffset", "jitter", "tiny", "huge") and n % 3 != 0:
                 continue
             for v in range(1 if (quick or gk in ("unit", "integer")) else 2):
                 out.append({"kind": "step_sweep", "n": n, "grid": gk, "v": v})
@@ -139,6 +142,11 @@ def cases(tier, seed):
     # ---- refusals of inadmissible set-ups --------------------------------------------------
     for v in range(4 if quick else 12):
         out.append({"kind": "inadmissible", "n": rnd.randint(3, 30), "v": v})
+    # extreme but legal magnitudes of the values carried by the linear geometries
+    j = 0
+    for c in out:
+        if c["kind"] == "maps" and c["family"] not in ("MappedGeometry", "KLExpansion_Full", "CustomKL"):
+            c["scale"] = (1.0, 1e-12, 1e12)[j % 3]; j += 1
     return out
 
 def crash_config(case):
@@ -162,6 +170,8 @@ class Desc:
         self.bijective, self.linear, self.projection = bijective, linear, projection
         self.par_domain, self.fun_domain, self.rtol = par_domain, fun_domain, rtol
         self.f2p_scale = f2p_scale        # per-component error amplification of fun2par (KL)
+        self.columnwise = True            # False: user map couples the entries of one function value (no batch calls)
+        self.val_scale = 1.0              # magnitude of the generated parameter / function values
         self.skip_inverse = False         # set when the geometry is already known to be broken (empty step)
 
     def sample_par(self, rs, k=None, dtype="float"):
@@ -171,7 +181,7 @@ class Desc:
             return rs.randint(lo, 9, size=shape).astype(np.int64)
         if self.par_domain == "positive":
             return rs.uniform(0.3, 2.5, size=shape)
-        return rs.uniform(-1.5, 1.5, size=shape)
+        return rs.uniform(-1.5, 1.5, size=shape) * self.val_scale
 
     def sample_fun(self, rs, k=None):
         shape = self.fun_shape if k is None else self.fun_shape + (k,)
@@ -179,7 +189,7 @@ class Desc:
             return rs.uniform(0.2, 3.0, size=shape)
         if self.fun_domain == "ge1":
             return rs.uniform(1.1, 4.0, size=shape)
-        return rs.uniform(-2.0, 2.0, size=shape)
+        return rs.uniform(-2.0, 2.0, size=shape) * self.val_scale
 
 def _grid(kind, n, rs):
     """Regular 1D grids: offsets, spacings, construction routes whose round-off differs."""
@@ -187,6 +197,9 @@ def _grid(kind, n, rs):
         return np.linspace(0, 1, n)
     if kind == "integer":                      # nodes and coinciding step boundaries are exact floats: no round-off ambiguity
         return float(rs.randint(-20, 20)) + np.arange(n, dtype=float)
+    if kind in ("tiny", "huge"):               # extreme but legal length scales; offset of the order of the spacing
+        h = float(10 ** (rs.uniform(-12, -9) if kind == "tiny" else rs.uniform(9, 12)))
+        return h * (float(rs.uniform(-5, 5)) + np.arange(n))
     if kind == "faroffset":
         x0 = float(rs.choice([-1.0, 1.0]) * 10 ** rs.uniform(2, 5)); h = float(10 ** rs.uniform(-2, 1))
         return x0 + h * np.arange(n)
@@ -259,7 +272,34 @@ def _desc_step(cuqi, grid, ns, proj, proj_spelling=None):
     d.exact_grid = False
     return d
 
+def _cm_cumsum(x):
+    x = np.asarray(x, dtype=float); return np.cumsum(x.ravel()).reshape(x.shape)
+def _cm_icumsum(y):
+    y = np.asarray(y, dtype=float); return np.diff(y.ravel(), prepend=0.0).reshape(y.shape)
+def _cm_meanplus(x):
+    x = np.asarray(x, dtype=float); return x + x.mean()
+def _cm_imeanplus(y):
+    y = np.asarray(y, dtype=float); return y - y.mean() / 2.0
+def _cm_reverse(x):
+    x = np.asarray(x, dtype=float); return x.ravel()[::-1].reshape(x.shape).copy()
+def _cm_normalize(x):
+    x = np.asarray(x, dtype=float); return x / np.linalg.norm(x)
+def _cm_softmax(x):
+    x = np.asarray(x, dtype=float); e = np.exp(x - x.max()); return e / e.sum()
+def _cm_maxnorm(x):
+    x = np.asarray(x, dtype=float); return x / np.max(np.abs(x))
+
+# user maps that are well defined on ONE function value (any shape) but couple its entries: applied to a matrix of
+# samples they keep the shape and silently mix the columns, so every conversion has to go sample by sample
+COUPLED_MAPS = ("cumsum", "meanplus", "reverse", "normalize", "softmax", "maxnorm")
+
 _MAPFUNS = {
+    "cumsum": (_cm_cumsum, _cm_icumsum, "real", "real"),
+    "meanplus": (_cm_meanplus, _cm_imeanplus, "real", "real"),
+    "reverse": (_cm_reverse, _cm_reverse, "real", "real"),
+    "normalize": (_cm_normalize, None, "real", "real"),
+    "softmax": (_cm_softmax, None, "real", "real"),
+    "maxnorm": (_cm_maxnorm, None, "real", "real"),
     "exp": (np.exp, np.log, "real", "positive"),
     "affine": (lambda x: 2.5 * x - 1.0, lambda y: (y + 1.0) / 2.5, "real", "real"),
     "sinh": (np.sinh, np.arcsinh, "real", "real"),       # smooth and well conditioned in both directions
@@ -279,6 +319,8 @@ def _desc_mapped(cuqi, base, mapname, nested):
         geom = cuqi.geometry.MappedGeometry(base.geom, fmap, imap)
         f_all, i_all = fmap, imap
     cfg = dict(base.cfg); cfg["geometry"] = "MappedGeometry"; cfg["map"] = mapname; cfg["nested"] = bool(nested)
+    coupled = mapname in COUPLED_MAPS
+    cfg["map_kind"] = "coupled" if coupled else "elementwise"
     d = Desc(geom, base.impl, cfg, base.par_dim, base.fun_shape,
              (lambda p: f_all(base.ref_p2f(p))) if base.ref_p2f is not None else None,
              (lambda f: base.ref_f2p(i_all(np.asarray(f, dtype=float)))) if (base.ref_f2p is not None and i_all is not None) else None,
@@ -287,7 +329,8 @@ def _desc_mapped(cuqi, base, mapname, nested):
              par_domain=pdom, fun_domain=fdom, rtol=max(base.rtol, 1e-9), f2p_scale=base.f2p_scale)
     d.base = base
     d.f_all, d.i_all = f_all, i_all
-    if nested:      # function values must lie in the range of f_all so that the inverse is defined
+    d.columnwise = not coupled
+    if nested and not coupled:      # function values must lie in the range of f_all so that the inverse is defined
         d.sample_fun = lambda rs, k=None: f_all(rs.uniform(0.3, 1.4, size=(base.fun_shape if k is None else base.fun_shape + (k,))))
     if hasattr(base, "step"):
         d.step = base.step
@@ -365,7 +408,7 @@ def _tol_f2p(d, fscale):
     """absolute tolerance vector for parameters recovered by fun2par (KL amplifies by 1/coef)."""
     if d.f2p_scale is None:
         return None
-    return 1e-10 * d.f2p_scale * max(1.0, fscale)
+    return 1e-10 * d.f2p_scale * (fscale if fscale > 0 else 1.0)
 
 def _same(ctx, got, ref, rtol, atol_vec=None, scale=None):
     """values equal (shape-insensitive when sizes agree); returns (equal, maxdiff)."""
@@ -381,7 +424,11 @@ def _same(ctx, got, ref, rtol, atol_vec=None, scale=None):
         diff = np.abs(g - ref)
         ok = bool(np.all(diff <= av + max(rtol, 1e-9) * np.abs(ref)))
         return ok, float(np.max(diff / (av + 1e-300))) if diff.size else 0.0
-    ok = ctx.close(g, ref, rtol=max(rtol, 1e-15) if rtol > 0 else 0.0, atol=0.0 if rtol == 0 else 1e-13, scale=scale)
+    if scale is None:
+        with np.errstate(invalid="ignore"):
+            fin = np.concatenate([np.abs(g[np.isfinite(g)]).ravel(), np.abs(ref[np.isfinite(ref)]).ravel()])
+        scale = float(fin.max()) if fin.size else 0.0
+    ok = ctx.close(g, ref, rtol=max(rtol, 1e-15) if rtol > 0 else 0.0, atol=0.0 if rtol == 0 else 1e-13 * scale, scale=scale)
     with np.errstate(invalid="ignore"):
         md = float(np.nanmax(np.abs(g - ref))) if g.size else 0.0
     return ok, md
@@ -395,7 +442,10 @@ def _eqv(ctx, d, a, b):
         return False
     if d.rtol == 0:
         return bool(np.array_equal(a, b, equal_nan=True))
-    return ctx.close(a, b, rtol=1e-11, atol=1e-14)
+    with np.errstate(invalid="ignore"):
+        fin = np.abs(b[np.isfinite(b)])
+    sc = float(fin.max()) if fin.size else 0.0
+    return ctx.close(a, b, rtol=1e-11, atol=1e-14 * sc)
 
 def _shape_ok_batch(shape, single_shape, k):
     """batch result must be the per-column results stacked on a new last axis; a one-column batch may be squeezed."""
@@ -528,7 +578,7 @@ def probe_single(ctx, d, rs, rep, dtype="float"):
         return
     if d.bijective:
         ctx.count("roundtrip_checked")
-        eq, md = _same(ctx, F2, F, max(d.rtol, 1e-12) if d.rtol > 0 else 0.0, scale=max(fs, 1.0))
+        eq, md = _same(ctx, F2, F, max(d.rtol, 1e-12) if d.rtol > 0 else 0.0, scale=(fs if fs > 0 else 1.0))
         if not eq:
             ctx.violation("roundtrip_mismatch", _cfg(d, via="par2fun(fun2par)", input="single"), detail=f"par2fun(fun2par(f)) != f for an invertible geometry (max diff {md:.3g})")
     if d.projection or d.cfg["geometry"] == "MappedGeometry":
@@ -538,7 +588,7 @@ def probe_single(ctx, d, rs, rep, dtype="float"):
             okS, F3 = _call(ctx, d, "par2fun", "single", g.par2fun, np.asarray(q2).reshape(-1) if np.ndim(q2) == 0 else q2)
             ctx.count("projection_idempotence_checked")
             e1, m1 = _same(ctx, q2, q, max(d.rtol, 1e-12), _tol_f2p(d, fs))
-            e2, m2 = (_same(ctx, F3, F2, max(d.rtol, 1e-12), scale=max(fs, 1.0)) if okS else (True, 0.0))
+            e2, m2 = (_same(ctx, F3, F2, max(d.rtol, 1e-12), scale=(fs if fs > 0 else 1.0)) if okS else (True, 0.0))
             if not (e1 and e2):
                 ctx.violation("projection_not_idempotent", _cfg(d, via="fun2par/par2fun", input="single"),
                               detail=f"mapping back and forth once more changed the result (parameters diff {m1:.3g}, function diff {m2:.3g})")
@@ -770,7 +820,7 @@ def probe_samples(ctx, d, rs, Ns):
                 ctx.violation("samples_conversion", cfg(label), detail=f"{label}: par->fun->par chain is not lossless (max diff {md:.3g})")
             ok3, sf3 = _call(ctx, d, "Samples.funvals", "samples", lambda: sp.funvals)
             if ok3:
-                eq, md = _same(ctx, np.asarray(sf3.samples), A, max(d.rtol, 1e-11) if d.rtol > 0 else 0.0, scale=max(fs, 1.0))
+                eq, md = _same(ctx, np.asarray(sf3.samples), A, max(d.rtol, 1e-11) if d.rtol > 0 else 0.0, scale=(fs if fs > 0 else 1.0))
                 if np.asarray(sf3.samples).shape != A.shape or not eq:
                     ctx.violation("samples_conversion", cfg(label + "->funvals"), detail=f"second par->fun conversion differs from the first (max diff {md:.3g})")
         # samples given directly as function values: parameters == per-sample fun2par
@@ -832,7 +882,7 @@ def probe_array(ctx, d, rs):
     ok, af2 = _call(ctx, d, "CUQIarray.funvals", "array", lambda: ap.funvals)
     if ok:
         ctx.count("array_conversion_checked")
-        eq, md = _same(ctx, np.asarray(af2), np.asarray(af), max(d.rtol, 1e-11) if d.rtol > 0 else 0.0, scale=max(fs, 1.0))
+        eq, md = _same(ctx, np.asarray(af2), np.asarray(af), max(d.rtol, 1e-11) if d.rtol > 0 else 0.0, scale=(fs if fs > 0 else 1.0))
         if np.shape(af2) != np.shape(af) or not eq:
             ctx.violation("array_conversion", cfg("parameters->funvals"), detail=f"second par->fun conversion differs from the first (shape {np.shape(af2)} vs {np.shape(af)}, max diff {md:.3g})")
     # array created in function form
@@ -867,14 +917,20 @@ def probe_all(ctx, d, rs, level):
         probe_single(ctx, d, rs, rep, dtype="int")
     if d.linear and (level >= 2 or d.par_dim <= 12):
         probe_contribution(ctx, d)
-    if level >= 2:
+    if not d.columnwise:
+        ctx.count("batch_skipped_coupled_map")       # the user's map is only defined on one function value at a time
+        for Ns in (1, 2, 7):
+            probe_samples(ctx, d, rs, Ns)
+            ctx.count("coupled_map_samples_checked", Ns)
+    elif level >= 2:
         probe_batch(ctx, d, rs, BATCH_SIZES, ("C", "F", "strided"))
         probe_batch(ctx, d, rs, (2,), ("C",), dtype="int")
         for Ns in (1, 3):
             probe_samples(ctx, d, rs, Ns)
     else:
         probe_batch(ctx, d, rs, BATCH_SIZES, ("C",))
-        probe_samples(ctx, d, rs, 2)
+        for Ns in (1, 2):
+            probe_samples(ctx, d, rs, Ns)
     probe_array(ctx, d, rs)
 
 # ----------------------------------------------------------------------------- run_case
@@ -892,6 +948,7 @@ def run_case(case, ctx):
         if fam == "CustomKL":
             return _run_customkl(case, ctx, cuqi, rs)
         d = _build(case, cuqi, rs)
+        d.val_scale = float(case.get("scale", 1.0))
         ctx.note("geometry", repr(d.geom)[:80])
         probe_all(ctx, d, rs, 2)
         return
@@ -946,6 +1003,7 @@ def _run_kl_regrid(case, ctx, cuqi, rs):
         probe_single(ctx, d, rs, rep)
         probe_batch(ctx, d, rs, (2,), ("C",))
         probe_samples(ctx, d, rs, 2)
+        probe_samples(ctx, d, rs, 1)
         ctx.count("kl_regrid_stages_checked")
     ctx.nontrivial("KLExpansion:regrid")
 
@@ -982,6 +1040,7 @@ def _run_regrid(case, ctx, cuqi, rs):
         probe_single(ctx, d, rs, rep)
         probe_batch(ctx, d, rs, (2,), ("C",))
         probe_samples(ctx, d, rs, 2)
+        probe_samples(ctx, d, rs, 1)
         probe_array(ctx, d, rs)
         ctx.count("regrid_stages_checked")
     ctx.nontrivial(fam + ":regrid")
@@ -1028,6 +1087,7 @@ def _run_klfull(case, ctx, cuqi, rs):
     if rep is not None:
         probe_single(ctx, d, rs, rep)
         probe_samples(ctx, d, rs, 2)
+        probe_samples(ctx, d, rs, 1)
         probe_array(ctx, d, rs)
 
 def _run_customkl(case, ctx, cuqi, rs):
@@ -1045,6 +1105,7 @@ def _run_customkl(case, ctx, cuqi, rs):
     if rep is not None:
         probe_single(ctx, d, rs, rep)
         probe_samples(ctx, d, rs, 2)
+        probe_samples(ctx, d, rs, 1)
 
 def _run_inadmissible(case, ctx, cuqi, rs):
     """set-ups the documentation excludes must be refused, not silently accepted with wrong maps."""
